@@ -401,6 +401,67 @@ def first_call_trial(ctx, ref):
                     'threads_seen': res['threads_seen']})
 
 
+PRIME_TEXTS = [
+    'select a, b, (select c from u where d = 1) from t where e = 2 '
+    'order by a',
+    'select case when a = 1 then 2 else 3 end, f(x, y) from t join u on '
+    't.i = u.i; select 2',
+    'insert into t (a, b) values (1, 2), (3, 4)',
+]
+
+
+def primed_trial(ctx, ref):
+    """Fresh process whose FIRST library calls use unusual options (or
+    fail): whatever is cached on first use must not shape later results."""
+    rec, rng = ctx.rec, ctx.rng
+    calls = []
+    for _ in range(rng.randint(1, 3)):
+        opts = {}
+        for name in ('reindent', 'reindent_aligned', 'indent_tabs',
+                     'comma_first', 'compact', 'indent_columns',
+                     'indent_after_first', 'strip_comments',
+                     'use_space_around_operators', 'strip_whitespace'):
+            if rng.random() < 0.45:
+                opts[name] = True
+        if rng.random() < 0.5:
+            opts['indent_width'] = rng.choice([1, 8])
+        if rng.random() < 0.4:
+            opts['wrap_after'] = rng.choice([1, 80])
+        if rng.random() < 0.4:
+            opts['keyword_case'] = rng.choice(options.CASES)
+        if rng.random() < 0.3:
+            opts['identifier_case'] = rng.choice(options.CASES)
+        if rng.random() < 0.3:
+            opts['output_format'] = rng.choice(['python', 'php'])
+        if rng.random() < 0.3:
+            opts['truncate_strings'] = 3
+        text = rng.choice(PRIME_TEXTS)
+        if rng.random() < 0.2:
+            text = 'select * from ' + '(select * from ' * 120 + 't' \
+                + ')' * 120
+            opts['__low_recursion_limit__'] = True
+        calls.append(['format', text, opts])
+    rc, res, err = fresh(['primed', json.dumps({'calls': calls})])
+    rec.case()
+    if res is None or 'obs' not in res:
+        rec.count('primed_trials_unreadable')
+        return
+    rec.monitor('history_differential')
+    rec.count('primed_fresh_process_trials')
+    if res['obs'] != ref:
+        bad = [i for i in range(len(ref)) if res['obs'][i] != ref[i]]
+        i = bad[0]
+        rec.violation('primed-history', {'calls': calls, 'probe': i},
+                      'in a fresh process whose first calls were %r, probe '
+                      '%d (%s %r) gives %s, the plain fresh-process '
+                      'reference is %s' % (
+                          [c[2] for c in calls], i, c20_trial.PROBES[i][0],
+                          c20_trial.PROBES[i][1][:40],
+                          str(res['obs'][i])[:140], str(ref[i])[:140]),
+                      key=('primed', i))
+    rec.nontrivial(('primed', tuple(sorted(calls[0][2]))))
+
+
 def shard(ctx):
     rec, rng = ctx.rec, ctx.rng
     rc, refres, err = fresh(['ref'])
@@ -413,11 +474,13 @@ def shard(ctx):
     k = 0
     while ctx.running():
         k += 1
-        m = k % 6
+        m = k % 7
         if m in (0, 1, 2):
             history_trial(ctx, ref, src)
         elif m == 3:
             concurrency_trial(ctx, src)
+        elif m == 4:
+            primed_trial(ctx, ref)
         else:
             first_call_trial(ctx, ref)
 
